@@ -121,6 +121,7 @@ type runOut struct {
 	crash   string // non-empty: process died; text of the crash
 	crashSg string
 	timeout bool
+	retried bool   // the run exceeded the short watchdog and was executed again under the long one
 	harness string // harness error text
 	wall    time.Duration
 }
@@ -130,12 +131,27 @@ var (
 	maxRunWall   = 90 * time.Second
 )
 
+// runSim executes one simulated run in its own OS process. A run that exceeds the wall-clock watchdog is executed
+// once more with ten times the limit before anything is concluded from it: runs are deterministic, so a run that was
+// merely slow (a very large list, a loaded machine) completes the second time and its result is used; only a run
+// that exceeds the long limit as well is reported (non-termination if a goroutine is spinning in repository code,
+// harness error otherwise).
 func runSim(ctx context.Context, race bool, args ...string) runOut {
+	ro := runSimLimit(ctx, race, maxRunWall, args...)
+	if ro.timeout && ctx.Err() == nil {
+		slow := runSimLimit(ctx, race, 10*maxRunWall, args...)
+		slow.retried = true
+		return slow
+	}
+	return ro
+}
+
+func runSimLimit(ctx context.Context, race bool, limit time.Duration, args ...string) runOut {
 	b := bin
 	if race && raceBin != "" {
 		b = raceBin
 	}
-	cctx, cancel := context.WithTimeout(ctx, maxRunWall)
+	cctx, cancel := context.WithTimeout(ctx, limit)
 	defer cancel()
 	cmd := exec.CommandContext(cctx, b, append([]string{"-test.run", "^TestSim$", "-test.timeout", "0"}, args...)...)
 	cmd.Cancel = func() error { return cmd.Process.Signal(syscall.SIGQUIT) }
@@ -448,7 +464,7 @@ func main() {
 				add(v, ro.res)
 			} else {
 				harnessErrs++
-				harnessMsgs = append(harnessMsgs, fmt.Sprintf("idx %d: watchdog (%v) without a repository goroutine running: %s", ro.res.Idx, maxRunWall, tail(ro.crash, 1500)))
+				harnessMsgs = append(harnessMsgs, fmt.Sprintf("idx %d: watchdog (%v, after a first attempt under %v) without a repository goroutine running: %s", ro.res.Idx, 10*maxRunWall, maxRunWall, tail(ro.crash, 1500)))
 			}
 		case ro.crash != "":
 			if ro.crashSg != "" {
@@ -635,8 +651,11 @@ func minimise(ctx context.Context, rep *Result, v Violation, race bool, shrink b
 		return base, nil
 	}
 	origTape, origPre := len(cur.Tape), len(cur.Preempt)
-	budget := 60
-	deadline := time.Now().Add(25 * time.Second)
+	budget := 90
+	deadline := time.Now().Add(40 * time.Second)
+	if rep.Tier == "thorough" {
+		budget, deadline = 400, time.Now().Add(180*time.Second)
+	}
 	try := func(c *ReplayFile) bool {
 		if budget <= 0 || time.Now().After(deadline) {
 			return false
@@ -664,7 +683,55 @@ func minimise(ctx context.Context, rep *Result, v Violation, race bool, shrink b
 			cur = &c
 		}
 	}
-	// 3. zero blocks of the tape
+	// 3. preemptions: none at all (a schedule-independent violation), then only the last K (those nearest to the
+	// violation), then blocks (ddmin-style) within a share of the budget
+	if len(cur.Preempt) > 0 {
+		c := *cur
+		c.Preempt = nil
+		if try(&c) {
+			cur = &c
+		}
+	}
+	if len(cur.Preempt) > 1 {
+		lo, hi := 0, len(cur.Preempt) // smallest number of trailing preemptions that still reproduces
+		for lo < hi {
+			mid := (lo + hi) / 2
+			c := *cur
+			c.Preempt = append([]preemptPoint(nil), cur.Preempt[len(cur.Preempt)-mid:]...)
+			if try(&c) {
+				hi = mid
+			} else {
+				lo = mid + 1
+			}
+		}
+		if hi < len(cur.Preempt) {
+			c := *cur
+			c.Preempt = append([]preemptPoint(nil), cur.Preempt[len(cur.Preempt)-hi:]...)
+			if try(&c) {
+				cur = &c
+			}
+		}
+	}
+	preShare := budget / 2
+	for size := (len(cur.Preempt) + 1) / 2; size >= 1 && len(cur.Preempt) > 0 && budget > preShare; size /= 2 {
+		for at := 0; at < len(cur.Preempt) && budget > preShare; {
+			c := *cur
+			end := at + size
+			if end > len(cur.Preempt) {
+				end = len(cur.Preempt)
+			}
+			c.Preempt = append(append([]preemptPoint(nil), cur.Preempt[:at]...), cur.Preempt[end:]...)
+			if try(&c) {
+				cur = &c
+			} else {
+				at += size
+			}
+		}
+		if size == 1 {
+			break
+		}
+	}
+	// 4. zero blocks of the tape
 	for size := (len(cur.Tape) + 1) / 2; size >= 1; size /= 2 {
 		for at := 0; at < len(cur.Tape); at += size {
 			allZero := true
@@ -683,25 +750,6 @@ func minimise(ctx context.Context, rep *Result, v Violation, race bool, shrink b
 			}
 			if try(&c) {
 				cur = &c
-			}
-		}
-		if size == 1 {
-			break
-		}
-	}
-	// 4. drop preemptions
-	for size := (len(cur.Preempt) + 1) / 2; size >= 1 && len(cur.Preempt) > 0; size /= 2 {
-		for at := 0; at < len(cur.Preempt); {
-			c := *cur
-			end := at + size
-			if end > len(cur.Preempt) {
-				end = len(cur.Preempt)
-			}
-			c.Preempt = append(append([]preemptPoint(nil), cur.Preempt[:at]...), cur.Preempt[end:]...)
-			if try(&c) {
-				cur = &c
-			} else {
-				at += size
 			}
 		}
 		if size == 1 {
